@@ -705,7 +705,7 @@ func (e *fnEnc) alloc(c *blockCtx, in *ssa.Alloc) {
 		comp, cs := e.elemCompT(u.Elem())
 		arr := e.heapGet2(c.st, comp, cs)
 		inner := ArrayOf(SInt, es)
-		e.setHeap(c.st, comp, store(arr, r, app(inner, fmt.Sprintf("(as const %s)", inner), e.zeroOfSort(es, u.Elem()))))
+		e.setHeap(c.st, comp, store(arr, r, e.constArray(inner, e.zeroOfSort(es, u.Elem()))))
 	default:
 		lv := &LValue{kind: 0, ref: r, typ: pt}
 		e.storeLVm(c.st, lv, e.zeroOf(pt))
@@ -985,7 +985,7 @@ func (e *fnEnc) makeSlice(c *blockCtx, in *ssa.MakeSlice) {
 	es := e.sortOf(et)
 	comp, cs := e.elemCompT(et)
 	inner := ArrayOf(SInt, es)
-	e.setHeap(c.st, comp, store(e.heapGet2(c.st, comp, cs), r, app(inner, fmt.Sprintf("(as const %s)", inner), e.zeroOfSort(es, et))))
+	e.setHeap(c.st, comp, store(e.heapGet2(c.st, comp, cs), r, e.constArray(inner, e.zeroOfSort(es, et))))
 	if !e.mayPanic {
 		e.obligation("bounds", e.exprName(in), c.reach, and(le(intLit(0), n), le(n, cp)), "make: 0 <= len <= cap", e.posOf(in), false)
 	}
@@ -1279,6 +1279,10 @@ func (e *fnEnc) next(c *blockCtx, in *ssa.Next) {
 		imp(le(intLit(128), b0), or(le(intLit(128), r), eq(r, intLit(0xFFFD)))),
 		imp(le(intLit(128), b0), or(eq(r, intLit(0xFFFD)), lt(intLit(1), w))),
 		imp(and(le(intLit(128), b0), eq(r, intLit(0xFFFD)), not(eq(w, intLit(3)))), eq(w, intLit(1))),
+		// continuation bytes of a multi-byte encoding are >= 0x80
+		imp(le(intLit(2), w), le(intLit(128), strAt(s, add(pos, intLit(1))))),
+		imp(le(intLit(3), w), le(intLit(128), strAt(s, add(pos, intLit(2))))),
+		imp(le(intLit(4), w), le(intLit(128), strAt(s, add(pos, intLit(3))))),
 		le(intLit(0), r), le(r, intLit(0x10FFFF)),
 	)))
 	e.setHeap(c.st, comp, ite(okc, add(pos, w), pos))
